@@ -34,3 +34,67 @@ Print Assumptions c07_pending_ack_shape.
 
 Example c07_nonvacuous : ltac:(let t := type of inbound_example in exact t).
 Proof. exact inbound_example. Qed.
+
+(* ---- pending acknowledgement in the closed loop ---- *)
+(* Additions for coq/props/C07.v — the closed loop of theories/InboundWorld.v.
+   Needs, next to the existing imports of props/C07.v:
+     From Coq Require Import ZArith List.
+     From MQ Require Import InboundWorld.
+   (standalone:  cd /verif/coq && coqc -Q theories MQ -Q gen MQG -Q props MQP \
+        -Q /verif/work/prover-inbound-world SIW /verif/work/prover-inbound-world/C07_additions.v) *)
+From Coq Require Import ZArith List.
+From MQ Require Import InboundWorld.
+Import ListNotations.
+Local Open Scope N_scope.
+
+(* A message is returned only by the delivery step; that step writes nothing, saves no marker
+   and leaves exactly the PUBREC of the returned message pending. *)
+Theorem c07_world_delivery_writes_nothing : forall w l w', istep w l w' -> i_deliv w' <> i_deliv w ->
+  l = LDeliver /\ exists id x q, i_b2c w = DPub id x :: q /\ ~ In id (i_marks w) /\ i_owed w = None /\
+    i_deliv w' = x :: i_deliv w /\ i_owed w' = Some (URec id x) /\ i_c2b w' = i_c2b w /\
+    i_marks w' = i_marks w.
+Proof. exact delivered_only_by_deliver. Qed.
+Print Assumptions c07_world_delivery_writes_nothing.
+
+(* While an acknowledgement is pending the client reads nothing: the flush comes first. *)
+Theorem c07_world_pending_ack_first : forall w l w', istep w l w' -> i_owed w <> None -> is_read l = false.
+Proof. exact owed_blocks_reading. Qed.
+Print Assumptions c07_world_pending_ack_first.
+
+(* The pending acknowledgement is kept until LFlush writes it (marker Save first for a PUBREC),
+   across Break, Reconnect, failing Saves and failing writes; only a process stop loses it. *)
+Theorem c07_world_ack_kept_until_written : forall w l w' u, istep w l w' -> i_owed w = Some u ->
+  i_owed w' = Some u \/
+  (l = LFlush /\ i_c2b w' = i_c2b w ++ [u] /\ i_marks w' = save_marker u (i_marks w)) \/
+  l = LRestart.
+Proof. exact owed_kept_until_written. Qed.
+Print Assumptions c07_world_ack_kept_until_written.
+
+(* In every reachable state of the closed loop a PUBREC, written or pending, is the PUBREC of a
+   message that was returned to the application. *)
+Theorem c07_world_pubrec_only_for_delivered : forall w id x, ireach w ->
+  In (URec id x) (cl w) -> In x (i_deliv w).
+Proof. exact pubrec_only_for_delivered. Qed.
+Print Assumptions c07_world_pubrec_only_for_delivered.
+
+(* the at-least-once analogue *)
+Theorem c07_world_puback_only_for_delivered : forall reuse w p, qreach reuse w ->
+  In p (q_c2b w ++ olp (q_owed w)) -> In (snd p) (q_deliv w).
+Proof. exact qos1_ack_only_after_delivery. Qed.
+Print Assumptions c07_world_puback_only_for_delivered.
+
+Theorem c07_world_qos1_delivery_leaves_ack_pending : forall reuse w w', qstep reuse w w' ->
+  q_deliv w' <> q_deliv w ->
+  exists p q, q_owed w = None /\ q_b2c w = p :: q /\ q_deliv w' = snd p :: q_deliv w /\
+              q_owed w' = Some p /\ q_c2b w' = q_c2b w.
+Proof. exact qos1_delivery_leaves_ack_pending. Qed.
+Print Assumptions c07_world_qos1_delivery_leaves_ack_pending.
+
+Theorem c07_world_qos1_acked_were_delivered : forall w x, qreach false w ->
+  In x (q_acked w) -> In x (q_deliv w).
+Proof. exact qos1_acked_were_delivered. Qed.
+Print Assumptions c07_world_qos1_acked_were_delivered.
+
+Example c07_world_qos1_reuse_loses_message : ltac:(let t := type of qos1_reuse_loses_message in exact t).
+Proof. exact qos1_reuse_loses_message. Qed.
+Print Assumptions c07_world_qos1_reuse_loses_message.
